@@ -37,7 +37,7 @@ def c25(res, thorough):
                        "for 32/64-bit functions; cut-width sequences: random compositions of the source width, mixed cut/safe_cut sequences around and past the end, all compositions of 8- and 16-bit sources; "
                        "distinct = distinct input lines; every input is non-trivial (each exercises the full function)")
     steps.regenerate(res)
-    lean_step(res, "CdsVerif.Props.C25", thorough, extra_allowed=BV_AXIOMS("C25"))
+    lean_step(res, ["CdsVerif.Props.C25", "CdsVerif.Props.C25Splitters"], thorough, extra_allowed=BV_AXIOMS("C25"))
     n = 20000 if thorough else 1500
     exe = steps.build_pure("bits", ["bits.cpp", "bits_generic.cpp"])
     steps.tie_D(res, exe, [str(res.seed), str(n)], ["eval"], purespec.compare_eval, "bits")
@@ -90,6 +90,22 @@ def c27(res, thorough):
     steps.tie_D(res, exe, [str(res.seed), str(20000 if thorough else 1500)], ["eval"], purespec.compare_eval, "splitorder")
 
 
+def c28(res, thorough):
+    import purespec
+    base_cov(res, ["split_bitstring / byte_splitter are hand models tied by differential runs; number_splitter members and metrics::make are translated",
+                   "the traversal of the multi-level array itself (concurrent part) belongs to C14; here the addressing function only",
+                   "head widths above 32 with a byte-array hash (split_bitstring's unsigned result) and head width 64 (size_t(1)<<64) are outside the defined domain: witnesses proved in Props/C28"])
+    res.cov["rule"] = ("all configurations head_bits 0..hash_bits x array_bits 0..16 x hash sizes 1,2,4,8 (exhaustive); cut sequences as in C25; "
+                       "families of distinct hashes sharing prefixes of every length inserted into a real FeldmanHashSet at random small widths; distinct = distinct input lines; all non-trivial")
+    res.cov["exhaustive"] = True
+    steps.regenerate(res)
+    lean_step(res, ["CdsVerif.Props.C28", "CdsVerif.Props.C25Splitters"], thorough)
+    exe = steps.build_pure("feldman", ["feldman.cpp"], with_libcds=True)
+    steps.tie_D(res, exe, [str(res.seed), str(200 if thorough else 15)], ["eval"], purespec.compare_feldman, "feldman")
+    exe2 = steps.build_pure("splitters", ["splitters.cpp"])
+    steps.tie_D(res, exe2, ["splitters", str(res.seed), str(1000 if thorough else 80)], ["seqeval"], purespec.compare_seq, "splitters")
+
+
 def BV_AXIOMS(prop):
     """Per-property allow-list of bv_decide axioms (named in the evidence)."""
     p = os.path.join(vlib.VERIF, "tools", "bv_axioms.json")
@@ -103,6 +119,7 @@ TABLE = {
     "C22": ("proof", c22),
     "C26": ("proof", c26),
     "C27": ("proof", c27),
+    "C28": ("proof", c28),
     "C09": ("translation_validation", c09),
 }
 
